@@ -471,6 +471,9 @@ func (t *fnTr) structValue(obj types.Object, lv *lvar) string {
 	parts := make([]string, len(lv.forder))
 	for i, f := range lv.forder {
 		parts[i] = lv.fields[f].name
+		if lv.fields[f].kind == "vmapn" {
+			parts[i] = "(match " + parts[i] + " with Some m_ => m_ | None => [] end)" // the nil Map is stored as the empty Map
+		}
 	}
 	return "(mk_" + lv.kind[4:] + " " + strings.Join(parts, " ") + ")"
 }
@@ -627,6 +630,9 @@ func (t *fnTr) expr(e ast.Expr) string {
 		if id, ok := x.X.(*ast.Ident); ok {
 			if lv, ok := t.locals[t.p.info.Uses[id]]; ok && strings.HasPrefix(lv.kind, "ptr:") {
 				return lv.name
+			}
+			if lv, ok := t.locals[t.p.info.Uses[id]]; ok && lv.fields != nil && strings.HasPrefix(lv.kind, "rec:") {
+				return t.structValue(t.p.info.Uses[id], lv) // *p of a struct local: a copy of the struct
 			}
 		}
 		t.unsupported(e, "dereference of something other than an out-parameter")
@@ -3458,6 +3464,37 @@ func (t *fnTr) assign(x *ast.AssignStmt, next func() string) string {
 		}
 		t.unsupported(x, "two-value assignment form")
 	}
+	if len(x.Lhs) == 3 && len(x.Rhs) == 1 && !define && t.handler {
+		// p.M, p.R, err = f(rdr): fields of a struct local and existing variables receive the three results
+		if c, isCall := x.Rhs[0].(*ast.CallExpr); isCall {
+			mark := len(t.guards)
+			if ec, ok := t.externCall(c); ok && ec.rich == "triple" && len(ec.stateOut) > 0 {
+				var names []string
+				for i, l := range x.Lhs {
+					k := ec.results[i]
+					if k == "err" {
+						k = "errv"
+					}
+					if id, ok := l.(*ast.Ident); ok && id.Name == "_" {
+						names = append(names, "_")
+						continue
+					}
+					tl := t.lvarOf(l)
+					if tl == nil || tl.kind != k || tl.fields != nil {
+						t.unsupported(x, "three-value assignment to something other than variables / struct fields of the result types")
+					}
+					if base, ok := unparen(l).(*ast.SelectorExpr); ok {
+						if bid, ok := unparen(base.X).(*ast.Ident); ok && t.escaped[t.p.info.Uses[bid]] {
+							t.unsupported(x, "field assignment through a pointer that has already been stored (aliasing)")
+						}
+					}
+					names = append(names, tl.name)
+				}
+				return t.wrap(mark, "match "+ec.term+" with None => Crash | Some (("+strings.Join(names, ", ")+"), "+tuplePat(ec.stateOut)+") =>\n  "+next()+" end")
+			}
+		}
+		t.unsupported(x, "three-value assignment form")
+	}
 	if len(x.Lhs) == 3 && len(x.Rhs) == 1 && define {
 		// m, raw, err := f(rdr) with f a package function that reads from the reader
 		if c, isCall := x.Rhs[0].(*ast.CallExpr); isCall {
@@ -3968,6 +4005,9 @@ func (t *fnTr) assign(x *ast.AssignStmt, next func() string) string {
 						for i := 0; i < st.NumFields(); i++ {
 							f := st.Field(i)
 							fk := t.kindOfType(f.Type())
+							if fk == "vmap" && t.handler {
+								fk = "vmapn" // a Map field of a new struct is nil until assigned, and these functions test it
+							}
 							fl := t.newLocal(nil, l.Name+"_"+f.Name(), fk)
 							lv.fields[f.Name()] = fl
 							lv.forder = append(lv.forder, f.Name())
@@ -5082,6 +5122,18 @@ func (t *fnTr) forStmt(x *ast.ForStmt, rest []ast.Stmt, end func() string) strin
 			}
 		}
 		handlerLoop := false
+		if !isRead && t.handler && len(x.Body.List) >= 2 {
+			// the reader call may be preceded by one declaration of a fresh struct (mr := new(T))
+			if f0, ok := x.Body.List[0].(*ast.AssignStmt); ok && f0.Tok == token.DEFINE && len(f0.Rhs) == 1 {
+				if c0, ok := f0.Rhs[0].(*ast.CallExpr); ok {
+					if id0, ok := c0.Fun.(*ast.Ident); ok && id0.Name == "new" {
+						if f1, ok := x.Body.List[1].(*ast.AssignStmt); ok {
+							first = f1
+						}
+					}
+				}
+			}
+		}
 		if !isRead && t.handler && first != nil && len(first.Rhs) == 1 && rl == nil {
 			// ... or a file this function opened
 			if c, ok := first.Rhs[0].(*ast.CallExpr); ok {
@@ -5358,7 +5410,7 @@ func constTable(p *pkgInfo, vs *ast.ValueSpec, i int) (string, bool) {
 
 // the functions translated into Pure_gen.v ("Recv.Method" for methods)
 var pureFuncs = []string{"cast", "escapeChars", "parsePath", "getSubKeyMap", "hasSubKeys", "Map.PathForKeyShortest", "valuesForKeyPath", "hasKey", "hasKeyPath", "getLeafNodes",
-	"Map.ValuesForKey", "Map.oldValuesForPath", "Map.ValuesForPath", "Map.LeafNodes", "getJson", "NewMapJsonReader", "NewMapJsonReaderRaw", "Map.Exists", "Map.ValueForPath", "Map.ValueForKey", "Map.LeafPaths", "Map.LeafValues", "valuesForArray", "Map.PathsForKey", "byteReader.ReadByte", "teeReader.ReadByte", "Maps.JsonString", "Maps.JsonStringIndent", "Maps.XmlString", "Maps.XmlStringIndent", "BeautifyXml", "Map.Copy", "Map.Json", "Map.Root", "NewMapXml", "NewMapXmlSeq", "lastKey", "xmlToMapParser", "xmlSeqToMapParser", "Map.JsonWriter", "Map.JsonWriterRaw", "Map.JsonIndentWriter", "Map.JsonIndentWriterRaw", "Map.XmlWriter", "Map.XmlIndentWriter", "MapSeq.XmlWriter", "MapSeq.XmlIndentWriter", "mapToXmlSeqIndent", "pretty.Indent", "pretty.Outdent", "elemListSeq.Less", "marshalMapToXmlIndent", "attrList.Less", "elemList.Less", "NewMapJson", "updateValueForKey", "updateValue", "updateValuesForKeyPath", "Map.UpdateValuesForPath", "prevValueByPath", "remove", "renameKey", "Map.Remove", "Map.RenameKey", "parentPath", "Map.SetValueForPath", "Map.Xml", "Map.XmlIndent", "MapSeq.Xml", "MapSeq.XmlIndent", "AnyXml", "AnyXmlIndent", "marshalJSON", "Map.JsonIndent", "Map.NewMap", "addNewVal", "copyMapShallow", "NewMapGob", "Map.Gob", "HandleXmlReader", "HandleXmlReaderRaw", "HandleJsonReader", "HandleJsonReaderRaw", "NewMapsFromJsonFile", "NewMapsFromXmlFile"}
+	"Map.ValuesForKey", "Map.oldValuesForPath", "Map.ValuesForPath", "Map.LeafNodes", "getJson", "NewMapJsonReader", "NewMapJsonReaderRaw", "Map.Exists", "Map.ValueForPath", "Map.ValueForKey", "Map.LeafPaths", "Map.LeafValues", "valuesForArray", "Map.PathsForKey", "byteReader.ReadByte", "teeReader.ReadByte", "Maps.JsonString", "Maps.JsonStringIndent", "Maps.XmlString", "Maps.XmlStringIndent", "BeautifyXml", "Map.Copy", "Map.Json", "Map.Root", "NewMapXml", "NewMapXmlSeq", "lastKey", "xmlToMapParser", "xmlSeqToMapParser", "Map.JsonWriter", "Map.JsonWriterRaw", "Map.JsonIndentWriter", "Map.JsonIndentWriterRaw", "Map.XmlWriter", "Map.XmlIndentWriter", "MapSeq.XmlWriter", "MapSeq.XmlIndentWriter", "mapToXmlSeqIndent", "pretty.Indent", "pretty.Outdent", "elemListSeq.Less", "marshalMapToXmlIndent", "attrList.Less", "elemList.Less", "NewMapJson", "updateValueForKey", "updateValue", "updateValuesForKeyPath", "Map.UpdateValuesForPath", "prevValueByPath", "remove", "renameKey", "Map.Remove", "Map.RenameKey", "parentPath", "Map.SetValueForPath", "Map.Xml", "Map.XmlIndent", "MapSeq.Xml", "MapSeq.XmlIndent", "AnyXml", "AnyXmlIndent", "marshalJSON", "Map.JsonIndent", "Map.NewMap", "addNewVal", "copyMapShallow", "NewMapGob", "Map.Gob", "HandleXmlReader", "HandleXmlReaderRaw", "HandleJsonReader", "HandleJsonReaderRaw", "NewMapsFromJsonFile", "NewMapsFromXmlFile", "NewMapsFromJsonFileRaw", "NewMapsFromXmlFileRaw"}
 
 // joinMode: functions translated in join mode (see branching): the statements after an if / switch are translated
 // once instead of into every branch.  The continuation-passing translation of the other functions is kept as it is
@@ -5404,7 +5456,7 @@ func genPure(p *pkgInfo) string {
 				okAll := st.NumFields() > 0
 				for i := 0; i < st.NumFields(); i++ {
 					k := proto.kindOfType(st.Field(i).Type())
-					okAll = okAll && (k == "bool" || k == "str" || k == "int" || k == "val")
+					okAll = okAll && (k == "bool" || k == "str" || k == "int" || k == "val" || k == "vmap")
 				}
 				if okAll {
 					structs[name] = st
